@@ -201,6 +201,24 @@ func pruneToVerifyIncrementalEnd.traverse
   decreases pos.Height
   ensures !isnil(result)
 
+// ---- tree API used by the balloon (bodies: see the tree sections) ----------------
+// UNVERIFIED as yet: stated here so that balloon-level properties are proved
+// modularly against them; each clause is an assumption until its check exists.
+
+func HistoryTree.Add
+  modifies everything
+  ensures isnil(result_2)
+func HistoryTree.AddBulk
+  modifies everything
+  ensures isnil(result_2) && len(result_0) == len(eventDigests)
+func HistoryTree.ProveMembership
+  modifies everything
+func HistoryTree.ProveConsistency
+  modifies everything
+  ensures isnil(result_1) ==> result_0 != nil
+func HistoryTree.Close
+  modifies everything
+
 // ---- proofs -----------------------------------------------------------------
 
 func AuditPath.Get
